@@ -239,6 +239,22 @@ class Closure(object):
         self.kwdefaults = kwdefaults
 
 
+GLOBAL_OVERRIDES = {}      # {module name: {global name: value}} -- configuration of host-dependent constants
+
+
+class MethodOf(object):
+    """a repo function bound to a symbolic instance"""
+    def __init__(self, func, obj):
+        self.func = func
+        self.obj = obj
+
+
+class SuperProxy(object):
+    def __init__(self, obj, after_cls):
+        self.obj = obj
+        self.after = after_cls
+
+
 class BoundMethod(object):
     def __init__(self, recv, name):
         self.recv = recv
@@ -261,6 +277,9 @@ class Frame(object):
             if name in f.vars:
                 return f.vars[name]
             f = f.parent
+        ov = GLOBAL_OVERRIDES.get(self.modname)
+        if ov and name in ov:
+            return ov[name]
         if name in self.globs:
             return self.globs[name]
         if hasattr(builtins, name):
@@ -316,7 +335,7 @@ class Contract(object):
                  yield_count=None, yield_at=None, yield_post=None, loops=None, result=None, effect=None,
                  inline=False, opaque=(), note="", exc_ensures=None, modifies=(),
                  yield_seq=0, yield_encode=None, yields_eq=None, native_yields=None, native_post=None, findings=(),
-                 name=None, when=None, examples=None, external_args=(), result_pytype=None, externals=(), unfold_depth=None):
+                 name=None, when=None, examples=None, external_args=(), result_pytype=None, externals=(), unfold_depth=None, no_native_replay=False):
         self.target = target
         self.modname, self.qualname = target.split(":")
         self.params = params or {}
@@ -344,6 +363,7 @@ class Contract(object):
         self.name = name or target          # unique key of the contract (several contracts may share a target)
         self.when = when                    # call-site applicability: lambda over call arguments
         self.external_args = list(external_args)
+        self.no_native_replay = no_native_replay
         self.unfold_depth = unfold_depth     # rounds of definitional unfolding of spec functions per obligation
         self.externals = list(externals)     # assumed contracts of external callees (checked natively during replay)
         self.result_pytype = result_pytype   # python type of the unmodelled result of an external callee
